@@ -128,7 +128,8 @@ def main(run, tier):
     parmod = importlib.import_module('calmjs.parse.parsers.es5')
     run.explanation = ('the parenthesis-stack discipline and the token hand-over of the lexer by transition contracts on the real AST '
                        '(_get_update_token, _set_tokens, backtracked_token), the re-lex branch of Parser.p_error path-complete with '
-                       'externals; the classification of a `/` itself against the statement\'s list of contexts by a bounded matrix')
+                       'externals; Lexer._token: which reader (master pattern / regex pattern) is applied to a `/`, for all texts and lexer states; '
+                       'the classification against the statement\'s list of contexts by a bounded matrix')
     run.floor = 40
     from . import attrobl
     import contracts.frames as _fr
@@ -145,6 +146,8 @@ def main(run, tier):
     verify_functions(run, cs, reg, {}, tier=tier)
     cs2, _, _ = cs_.build(lexmod, parmod)
     verify_functions(run, cs2, {}, {}, tier=tier)
+    import contracts.token as ctok
+    verify_functions(run, ctok.build(lexmod), {}, {}, tier=tier)
     # constants from the statement
     want_div = {'ID', 'NUMBER', 'STRING', 'REGEX', 'TRUE', 'FALSE', 'NULL', 'THIS', 'PLUSPLUS', 'MINUSMINUS', 'RPAREN', 'RBRACE', 'RBRACKET'}
     for name, got, want in (('const.tokens_that_imply_division', set(lexmod.TOKENS_THAT_IMPLY_DIVISON), want_div),
@@ -158,8 +161,10 @@ def main(run, tier):
     run.trust('ply reports the first token without an action to p_error (the `}` / `++` / `--` cases are resolved by the parser)',
               'the stack-discipline contracts are transition contracts; that the stack represents the open parentheses of the '
               'source is an invariant whose failures under layout tokens are the recorded findings')
-    run.assume('Lexer._token (two nested scanning loops driven by IndexError) has no deductive contract: its decision is checked by the '
-               'bounded matrix only')
+    run.assume('Lexer._token is verified against the preconditions of its two readers for texts of any length (loops cut, text = length + '
+               'code-point function, skip() uninterpreted with its unfoldings); that "division permitted" in terms of the look-behind state '
+               '(last real token, parenthesis marker) coincides with the syntactic grammar is checked by the bounded matrix only; '
+               'termination of the scanning loops is not proved (bounded under C12)')
 
 
 def replay(data):
